@@ -14,5 +14,8 @@ for name, ob in sorted(r['obligations'].items()):
                 print("     ", v.status, "site", v.site, "note:", v.note[:150]); print("      model:", {k:v2 for k,v2 in (v.model or {}).items() if not k.startswith('choice')})
                 break
 for a in r['ast']: print("AST", a['name'], a['ok'], a['detail'] if not a['ok'] else '')
-print("canaries", r['canaries'])
+can={}
+for c in r['canaries']: can.setdefault(c['function'],[]).append(c['status'])
+print("canaries not refuted:", [f for f,s in can.items() if 'sat' not in s])
+for f in r['functions']: print("  fn %-90s paths=%d vcs=%d wall=%.1f covers=%s" % (f['function'], f['paths'], f['vcs'], f.get('wall_s',0), f.get('covers_self_classes')))
 print("paths", r['npaths'], "wall %.1fs" % r['wall_s'])
